@@ -36,6 +36,9 @@ impl fmt::Display for Expr {
     }
 }
 
+/// Deepest chain of nested sub-expressions and symbol definitions that is evaluated
+const MAX_EVALUATION_DEPTH: usize = 1000;
+
 impl Expr {
     pub fn binary(left: Expr, operator: BinaryOperator, right: Expr) -> Expr {
         Expr::Binary(Box::new(BinaryExpr {
@@ -110,19 +113,31 @@ impl Expr {
     }
 
     pub fn run(&self, constants: &dyn Context) -> Result<i64, ExprRunError> {
+        self.run_nested(constants, 0)
+    }
+
+    /// Evaluation is recursive, also through the symbols an expression names: a symbol that is
+    /// defined through itself (or an absurdly deep expression) must not exhaust the stack
+    fn run_nested(&self, constants: &dyn Context, depth: usize) -> Result<i64, ExprRunError> {
         #[cfg(feature = "verif")]
         let _verif_depth = crate::verif::depth_guard();
+        if depth > MAX_EVALUATION_DEPTH {
+            return Err(ExprRunError::ArithmeticError(format!(
+                "expression is nested deeper than {} levels or defined through itself",
+                MAX_EVALUATION_DEPTH
+            )));
+        }
         match self {
             Expr::Ident(ident) => match constants.get_expr(ident) {
                 Some(Expr::Const(address)) => Ok(address),
                 // TODO: check recursion for cross linked equs and other labels
-                Some(expr) => expr.run(constants),
+                Some(expr) => expr.run_nested(constants, depth + 1),
                 None => Err(ExprRunError::MissingIdentifier(ident.clone())),
             },
             Expr::Const(value) => Ok(*value),
             Expr::Func(ident, argument) => {
                 if let Expr::Ident(name) = &**ident {
-                    let value = argument.run(constants)?;
+                    let value = argument.run_nested(constants, depth + 1)?;
                     let ret_val = match name.to_lowercase().as_str() {
                         "low" => (value as u64 & 0xff) as i64,
                         "high" | "byte2" => ((value as u64 & 0xff00) >> 8) as i64,
@@ -161,8 +176,8 @@ impl Expr {
                 }
             }
             Expr::Binary(binary) => {
-                let left = binary.left.run(constants)?;
-                let right = binary.right.run(constants)?;
+                let left = binary.left.run_nested(constants, depth + 1)?;
+                let right = binary.right.run_nested(constants, depth + 1)?;
                 match binary.operator {
                     BinaryOperator::Add => match left.checked_add(right) {
                         Some(value) => Ok(value),
@@ -242,7 +257,7 @@ impl Expr {
             }
             Expr::Unary(unary) => match unary.operator {
                 UnaryOperator::Minus => {
-                    let value = unary.expr.run(constants)?;
+                    let value = unary.expr.run_nested(constants, depth + 1)?;
                     match value.checked_neg() {
                         Some(value) => Ok(value),
                         None => Err(ExprRunError::ArithmeticError(format!(
@@ -252,11 +267,11 @@ impl Expr {
                     }
                 }
                 UnaryOperator::BitwiseNot => {
-                    let value = unary.expr.run(constants)?;
+                    let value = unary.expr.run_nested(constants, depth + 1)?;
                     Ok(!value)
                 }
                 UnaryOperator::LogicalNot => {
-                    let value = unary.expr.run(constants)?;
+                    let value = unary.expr.run_nested(constants, depth + 1)?;
                     Ok((value == 0) as i64)
                 }
             },
